@@ -22,7 +22,9 @@ import functools
 import pyvc.ext_c01  # noqa: F401  (library models: OrderedDict, typing.cast, functools.partial, dataclasses.fields)
 from bumble import hci
 from bumble.hci import HCI_Object, HCI_Packet
-from pyvc.contracts import Bytes, BytesN, IntRange, TupleOf, lemma
+from pyvc.contracts import Bytes, BytesN, Const, IntRange, OneOf, Opt, Str, TupleOf, contract, lemma
+from spec.hci import (acl_packet, command_complete_packet, command_packet, event_packet, iso_header, iso_sdu_info, le16_bytes, le32_bytes,
+                      le_meta_event_packet, sco_packet)
 
 ENVIRONMENT = [
     'the registries and per-class `fields` lists are read by reflection from the imported bumble.hci (A7); classes '
@@ -575,5 +577,473 @@ def register_class(family, cls):
         FAMILY_LOG.append((family, cls.__name__, f'undescribed: {e}'))
 
 
+
+# ---------------------------------------------------------------------------------------------------------------------
+# return parameters: one pair of lemmas per HCI_SyncCommand, through the Command Complete envelope
+# (HCI_Command_Complete_Event.from_parameters -> command_classes[opcode].parse_return_parameters ->
+#  return_parameters_class.from_parameters, with the error-status short form of HCI_StatusReturnParameters)
+# ---------------------------------------------------------------------------------------------------------------------
+CC = hci.HCI_Command_Complete_Event
+CC_LIMIT = 255 - 3
+
+
+def make_rp_fields_lemma(cmd, R, desc):
+    op = cmd.op_code
+    status_first = issubclass(R, hci.HCI_StatusReturnParameters)
+
+    def requires(n, vals):
+        return dom(desc, vals, CC_LIMIT)
+
+    def L(n, vals):
+        kw = mk_kwargs(desc, vals)
+        rp = R(**kw)
+        ev = CC(num_hci_command_packets=n, command_opcode=op, return_parameters=rp)
+        raw = bytes(ev)
+        # envelope (Core Vol 4 Part E 7.7.14)
+        assert raw == command_complete_packet(n, op, bytes(rp))
+        back = HCI_Packet.from_bytes(raw)
+        assert type(back) is CC
+        assert back.num_hci_command_packets == n
+        assert back.command_opcode == op
+        brp = back.return_parameters
+        if status_first and kw['status'] != 0:
+            # error status: only the status is kept (HCI_StatusReturnParameters.from_parameters)
+            assert type(brp) is hci.HCI_StatusReturnParameters
+            assert brp.status == kw['status']
+        else:
+            assert type(brp) is R
+            check_fields(desc, vals, kw, brp)
+        assert bytes(back) == raw
+
+    return L, requires
+
+
+def make_rp_bytes_lemma(cmd, R, desc, rows):
+    op = cmd.op_code
+    status_first = issubclass(R, hci.HCI_StatusReturnParameters)
+
+    def requires(n, chunks):
+        return chunk_dom(desc, chunks, CC_LIMIT)
+
+    def L(n, chunks):
+        params = mk_wire_all(desc, chunks)
+        raw = command_complete_packet(n, op, params)
+        pkt = HCI_Packet.from_bytes(raw)
+        assert type(pkt) is CC
+        assert bytes(pkt) == raw
+        assert pkt.num_hci_command_packets == n
+        assert pkt.command_opcode == op
+        brp = pkt.return_parameters
+        if status_first and params[0] != 0:
+            assert type(brp) is hci.HCI_StatusReturnParameters
+            assert brp.status == params[0]
+        else:
+            assert type(brp) is R
+            assert bytes(brp) == params
+            check_domain(desc, brp, rows)
+            # the whole event re-serialised from its fields
+            assert HCI_Object.dict_to_bytes(pkt.__dict__, CC.fields) == raw[3:]
+
+    return L, requires
+
+
+def register_return_parameters(cmd):
+    R = cmd.return_parameters_class
+    name = f'rp/{cmd.__name__}'
+    ov = [o for o in overrides_of(R)]
+    try:
+        if ov:
+            raise Undescribed('return parameters class overrides ' + ', '.join(ov))
+        if cmd.__dict__.get('parse_return_parameters') is not None:
+            raise Undescribed('command overrides parse_return_parameters')
+        desc = describe_fields(R.fields)
+        dc_names = [f.name for f in dataclasses.fields(R) if f.init]
+        names = [it[1] for it in desc if it[0] == 'f'] + [nk[0] for it in desc if it[0] == 'g' for nk in it[1]]
+        if sorted(dc_names) != sorted(names):
+            raise Undescribed(f'dataclass fields {dc_names} differ from the codec fields {names}')
+        if list(R.fields) != list(HCI_Object.fields_from_dataclass(R)):
+            raise Undescribed('fields differ from the dataclass metadata')
+        N = IntRange(0, 255)
+        for k in (ROW_COUNTS if has_group(desc) else (None,)):
+            tag = '' if k is None else f'[rows={k}]'
+            note = '' if k is None else f'bounded(3): repeated group unrolled to {k} item(s)'
+            L, Rq = make_rp_fields_lemma(cmd, R, desc)
+            lemma(f'{name}/fields{tag}', L, prop=PROP, params=dict(n=N, vals=desc_T(desc, k or 0, value_T)), requires=Rq, inline=INLINE, procs=1, note=note)
+            L, Rq = make_rp_bytes_lemma(cmd, R, desc, k or 0)
+            lemma(f'{name}/bytes{tag}', L, prop=PROP, params=dict(n=N, chunks=desc_T(desc, k or 0, chunk_T)), requires=Rq, inline=INLINE, procs=1, note=note)
+        FAMILY_LOG.append(('rp', cmd.__name__, 'bounded(3)' if has_group(desc) else 'ok'))
+    except Undescribed as e:
+        lemma(f'{name}/undescribed', make_flag_lemma(str(e)), prop=PROP, params={}, inline=INLINE, procs=1, note=f'{R.__name__}: {e}: NOT covered')
+        FAMILY_LOG.append(('rp', cmd.__name__, f'undescribed: {e}'))
+
+
+# ---------------------------------------------------------------------------------------------------------------------
+# classes with their own codec methods
+# ---------------------------------------------------------------------------------------------------------------------
+def popcount8(x):
+    return sum([(x >> i) & 1 for i in range(8)])
+
+
+U8 = IntRange(0, 255)
+U16 = IntRange(0, 0xFFFF)
+
+
+def register_ext_scan_parameters(family, cls):
+    """HCI_LE_Set_Extended_Scan_Parameters_Command: own __init__/from_parameters; one 5-byte row per bit set in
+    scanning_phys (a byte: 0..8 rows, enumerated completely)"""
+    op = cls.op_code
+    for k in range(9):
+        def make(k):
+            def requires(phys):
+                return popcount8(phys) == k
+
+            def Lf(own, policy, phys, rows):
+                types = [r[0] for r in rows]
+                intervals = [r[1] for r in rows]
+                windows = [r[2] for r in rows]
+                pkt = cls(own_address_type=own, scanning_filter_policy=policy, scanning_phys=phys, scan_types=types, scan_intervals=intervals, scan_windows=windows)
+                raw = bytes(pkt)
+                want = bytes([own, policy, phys]) + b''.join([bytes([r[0]]) + le16_bytes(r[1]) + le16_bytes(r[2]) for r in rows])
+                assert raw == command_packet(op, want)  # Core Vol 4 Part E 7.8.64
+                back = HCI_Packet.from_bytes(raw)
+                assert type(back) is cls
+                assert back.own_address_type == own
+                assert back.scanning_filter_policy == policy
+                assert back.scanning_phys == phys
+                assert back.scan_types == types
+                assert back.scan_intervals == intervals
+                assert back.scan_windows == windows
+                assert bytes(back) == raw
+
+            def Lb(own, policy, phys, rows):
+                params = bytes([own, policy, phys]) + b''.join(rows)
+                raw = command_packet(op, params)
+                pkt = HCI_Packet.from_bytes(raw)
+                assert type(pkt) is cls
+                assert bytes(pkt) == raw
+                again = cls(own_address_type=pkt.own_address_type, scanning_filter_policy=pkt.scanning_filter_policy, scanning_phys=pkt.scanning_phys,
+                            scan_types=pkt.scan_types, scan_intervals=pkt.scan_intervals, scan_windows=pkt.scan_windows)
+                assert bytes(again) == raw  # rebuilt from the parsed fields
+
+            return requires, Lf, Lb
+
+        Rq, Lf, Lb = make(k)
+        lemma(f'{family}/{cls.__name__}/fields[phys_bits={k}]', Lf, prop=PROP, requires=Rq, inline=INLINE, procs=1,
+              params=dict(own=U8, policy=U8, phys=U8, rows=TupleOf(*[TupleOf(U8, U16, U16)] * k)))
+        lemma(f'{family}/{cls.__name__}/bytes[phys_bits={k}]', Lb, prop=PROP, requires=Rq, inline=INLINE, procs=1,
+              params=dict(own=U8, policy=U8, phys=U8, rows=TupleOf(*[BytesN(5)] * k)))
+
+
+def register_ext_create_connection(family, cls):
+    """HCI_LE_Extended_Create_Connection_Command: own __init__/from_parameters; one 16-byte row per bit set in
+    initiating_phys (0..8 rows, enumerated completely)"""
+    op = cls.op_code
+    cols = ('scan_intervals', 'scan_windows', 'connection_interval_mins', 'connection_interval_maxs', 'max_latencies', 'supervision_timeouts', 'min_ce_lengths', 'max_ce_lengths')
+    for k in range(9):
+        def make(k):
+            def requires(phys):
+                return popcount8(phys) == k
+
+            def requires_f(phys, ptype, peer):
+                return [popcount8(phys) == k, is_public_type(peer[1]) == is_public_type(ptype)]
+
+            def Lf(policy, own, ptype, peer, phys, rows):
+                addr = hci.Address(peer[0], hci.AddressType(peer[1]))
+                lists = {c: [r[j] for r in rows] for j, c in enumerate(cols)}
+                pkt = cls(initiator_filter_policy=policy, own_address_type=own, peer_address_type=ptype, peer_address=addr, initiating_phys=phys, **lists)
+                raw = bytes(pkt)
+                want = bytes([policy, own, ptype]) + peer[0] + bytes([phys]) + b''.join([b''.join([le16_bytes(x) for x in r]) for r in rows])
+                assert raw == command_packet(op, want)  # Core Vol 4 Part E 7.8.66
+                back = HCI_Packet.from_bytes(raw)
+                assert type(back) is cls
+                assert back.initiator_filter_policy == policy
+                assert back.own_address_type == own
+                assert back.peer_address_type == ptype
+                assert back.peer_address == addr
+                assert back.initiating_phys == phys
+                for c in cols:
+                    assert getattr(back, c) == lists[c]
+                assert bytes(back) == raw
+
+            def Lb(head, phys, rows):
+                params = head + bytes([phys]) + b''.join(rows)
+                raw = command_packet(op, params)
+                pkt = HCI_Packet.from_bytes(raw)
+                assert type(pkt) is cls
+                assert bytes(pkt) == raw
+                again = cls(initiator_filter_policy=pkt.initiator_filter_policy, own_address_type=pkt.own_address_type, peer_address_type=pkt.peer_address_type,
+                            peer_address=pkt.peer_address, initiating_phys=pkt.initiating_phys, **{c: getattr(pkt, c) for c in cols})
+                assert bytes(again) == raw
+
+            return requires, requires_f, Lf, Lb
+
+        Rq, Rf, Lf, Lb = make(k)
+        lemma(f'{family}/{cls.__name__}/fields[phys_bits={k}]', Lf, prop=PROP, requires=Rf, inline=INLINE, procs=1,
+              params=dict(policy=U8, own=U8, ptype=U8, peer=TupleOf(BytesN(6), U8), phys=U8, rows=TupleOf(*[TupleOf(*[U16] * 8)] * k)))
+        lemma(f'{family}/{cls.__name__}/bytes[phys_bits={k}]', Lb, prop=PROP, requires=Rq, inline=INLINE, procs=1,
+              params=dict(head=BytesN(9), phys=U8, rows=TupleOf(*[BytesN(16)] * k)))
+
+
+def register_command_complete(family, cls):
+    """HCI_Command_Complete_Event overrides from_parameters: the per-command behaviour is the `rp/...` family; here the
+    remaining case: an opcode that is not a registered HCI_SyncCommand gives HCI_GenericReturnParameters with the bytes"""
+    sync_ops = sorted(op for op, c in hci.HCI_Command.command_classes.items() if issubclass(c, hci.HCI_SyncCommand))
+
+    def requires(op, data):
+        return [len(data) <= CC_LIMIT] + [op != k for k in sync_ops]
+
+    def L(n, op, data):
+        raw = command_complete_packet(n, op, data)
+        pkt = HCI_Packet.from_bytes(raw)
+        assert type(pkt) is cls
+        assert pkt.num_hci_command_packets == n
+        assert pkt.command_opcode == op
+        assert type(pkt.return_parameters) is hci.HCI_GenericReturnParameters
+        assert pkt.return_parameters.data == data
+        assert bytes(pkt) == raw
+        # built from fields
+        ev = cls(num_hci_command_packets=n, command_opcode=op, return_parameters=hci.HCI_GenericReturnParameters(data=data))
+        assert bytes(ev) == raw
+
+    lemma(f'{family}/{cls.__name__}/generic-return-parameters', L, prop=PROP, requires=requires, inline=INLINE, procs=1,
+          params=dict(n=U8, op=U16, data=Bytes),
+          note='opcode of no registered HCI_SyncCommand (unknown, or an HCI_AsyncCommand): return parameters kept as bytes')
+
+
+CUSTOM[hci.HCI_LE_Set_Extended_Scan_Parameters_Command] = register_ext_scan_parameters
+CUSTOM[hci.HCI_LE_Extended_Create_Connection_Command] = register_ext_create_connection
+CUSTOM[hci.HCI_Command_Complete_Event] = register_command_complete
+
+
+# ---------------------------------------------------------------------------------------------------------------------
+# the families
+# ---------------------------------------------------------------------------------------------------------------------
 for _op, _cls in sorted(hci.HCI_Command.command_classes.items()):
     register_class('cmd', _cls)
+for _op, _cls in sorted(hci.HCI_Event.event_classes.items()):
+    register_class('evt', _cls)
+for _op, _cls in sorted(hci.HCI_LE_Meta_Event.subevent_classes.items()):
+    register_class('le', _cls)
+for _op, _cls in sorted(hci.HCI_Command.command_classes.items()):
+    if issubclass(_cls, hci.HCI_SyncCommand):
+        register_return_parameters(_cls)
+
+
+# ---------------------------------------------------------------------------------------------------------------------
+# generic packets: opcodes / event codes / sub-event codes without a registered class are carried as generic objects whose
+# parameters are preserved byte for byte
+# ---------------------------------------------------------------------------------------------------------------------
+# the display-name functions are total (they are called by the constructors of the generic objects); their result is a
+# string that no lemma inspects
+contract('bumble.hci:HCI_Command.command_name', prop=PROP, params=dict(cls=Const(hci.HCI_Command), op_code=U16), returns=Str, modifies=[],
+         inline=INLINE, procs=1, note='total for every 16-bit opcode (one path per named opcode)')
+contract('bumble.hci:HCI_Event.event_name', prop=PROP, params=dict(cls=Const(hci.HCI_Event), event_code=U8), returns=Str, modifies=[],
+         inline=INLINE + ['bumble.core:name_or_number'], procs=1, note='total for every event code')
+contract('bumble.hci:HCI_Extended_Event.subevent_name', prop=PROP, params=dict(cls=Const(hci.HCI_LE_Meta_Event), subevent_code=U8), returns=Str, modifies=[],
+         inline=INLINE, procs=1, note='total for every sub-event code (checked for cls=HCI_LE_Meta_Event, the only user)')
+NAME_USES = ['bumble.hci:HCI_Command.command_name', 'bumble.hci:HCI_Event.event_name', 'bumble.hci:HCI_Extended_Event.subevent_name']
+
+CMD_OPS = sorted(hci.HCI_Command.command_classes)
+EVT_CODES = sorted(hci.HCI_Event.event_classes)
+SUB_CODES = sorted(hci.HCI_LE_Meta_Event.subevent_classes)
+
+
+def lemma_unknown_command(op, params):
+    raw = command_packet(op, params)
+    pkt = HCI_Packet.from_bytes(raw)
+    assert type(pkt) is hci.HCI_Command
+    assert pkt.op_code == op
+    assert pkt.parameters == params
+    assert bytes(pkt) == raw
+    # the same generic object built directly
+    built = hci.HCI_Command(params, op_code=op)
+    assert bytes(built) == raw
+
+
+lemma('generic/unknown-command-opcode', lemma_unknown_command, prop=PROP, params=dict(op=U16, params=Bytes),
+      requires=lambda op, params: [len(params) <= 255] + [op != k for k in CMD_OPS], inline=INLINE, uses=NAME_USES, procs=1)
+
+
+def lemma_unknown_event(code, params):
+    raw = event_packet(code, params)
+    pkt = HCI_Packet.from_bytes(raw)
+    assert type(pkt) is hci.HCI_Event
+    assert pkt.event_code == code
+    assert pkt.parameters == params
+    assert bytes(pkt) == raw
+    built = hci.HCI_Event(params, event_code=code)
+    assert bytes(built) == raw
+
+
+lemma('generic/unknown-event-code', lemma_unknown_event, prop=PROP, params=dict(code=U8, params=Bytes),
+      requires=lambda code, params: [len(params) <= 255, code != hci.HCI_LE_META_EVENT, code != hci.HCI_VENDOR_EVENT] + [code != k for k in EVT_CODES],
+      inline=INLINE, uses=NAME_USES, procs=1)
+
+
+def lemma_unknown_subevent(sub, rest):
+    raw = le_meta_event_packet(sub, rest)
+    pkt = HCI_Packet.from_bytes(raw)
+    assert type(pkt) is hci.HCI_LE_Meta_Event
+    assert pkt.event_code == hci.HCI_LE_META_EVENT
+    assert pkt.subevent_code == sub
+    assert pkt.parameters == bytes([sub]) + rest
+    assert bytes(pkt) == raw
+    built = hci.HCI_LE_Meta_Event(bytes([sub]) + rest, subevent_code=sub)
+    assert bytes(built) == raw
+
+
+lemma('generic/unknown-le-subevent-code', lemma_unknown_subevent, prop=PROP, params=dict(sub=U8, rest=Bytes),
+      requires=lambda sub, rest: [len(rest) <= 254] + [sub != k for k in SUB_CODES], inline=INLINE, uses=NAME_USES, procs=1)
+
+
+def lemma_event_truncation(code, params, extra):
+    """an event followed by surplus bytes is parsed from its announced length only (HCI_Event.from_bytes truncates)"""
+    raw = event_packet(code, params)
+    a = HCI_Packet.from_bytes(raw + extra)
+    assert bytes(a) == raw
+
+
+lemma('generic/event-surplus-bytes-ignored', lemma_event_truncation, prop=PROP, params=dict(code=U8, params=Bytes, extra=Bytes),
+      requires=lambda code, params: [len(params) <= 255, code != hci.HCI_LE_META_EVENT, code != hci.HCI_VENDOR_EVENT] + [code != k for k in EVT_CODES],
+      inline=INLINE, uses=NAME_USES, procs=1)
+
+
+def lemma_custom_packet(raw):
+    pkt = HCI_Packet.from_bytes(raw)
+    assert type(pkt) is hci.HCI_CustomPacket
+    assert pkt.hci_packet_type == raw[0]
+    assert pkt.payload == raw
+    assert bytes(pkt) == raw
+
+
+lemma('generic/unknown-packet-type', lemma_custom_packet, prop=PROP, params=dict(raw=Bytes),
+      requires=lambda raw: [len(raw) >= 1, raw[0] != 1, raw[0] != 2, raw[0] != 3, raw[0] != 4, raw[0] != 5], inline=INLINE, procs=1)
+
+
+# ---------------------------------------------------------------------------------------------------------------------
+# data packets (Core Vol 4 Part E 5.4.2, 5.4.3, 5.4.5)
+# ---------------------------------------------------------------------------------------------------------------------
+H12 = IntRange(0, 0xFFF)
+F2 = IntRange(0, 3)
+U32 = IntRange(0, 0xFFFFFFFF)
+
+
+def lemma_acl_fields(handle, pb, bc, data):
+    pkt = hci.HCI_AclDataPacket(connection_handle=handle, pb_flag=pb, bc_flag=bc, data_total_length=len(data), data=data)
+    raw = bytes(pkt)
+    assert raw == acl_packet(handle, pb, bc, data)
+    back = HCI_Packet.from_bytes(raw)
+    assert type(back) is hci.HCI_AclDataPacket
+    assert back.connection_handle == handle
+    assert back.pb_flag == pb
+    assert back.bc_flag == bc
+    assert back.data_total_length == len(data)
+    assert back.data == data
+    assert bytes(back) == raw
+
+
+lemma('data/acl/fields', lemma_acl_fields, prop=PROP, params=dict(handle=H12, pb=F2, bc=F2, data=Bytes), requires=lambda data: len(data) <= 0xFFFF, inline=INLINE,
+      note='data_total_length is the length of data (the only value from_bytes accepts)')
+
+
+def lemma_acl_bytes(h, data):
+    raw = bytes([2]) + h + le16_bytes(len(data)) + data
+    pkt = HCI_Packet.from_bytes(raw)
+    assert type(pkt) is hci.HCI_AclDataPacket
+    assert bytes(pkt) == raw
+    assert 0 <= pkt.connection_handle <= 0xFFF
+    assert 0 <= pkt.pb_flag <= 3
+    assert 0 <= pkt.bc_flag <= 3
+    assert pkt.data == data
+    assert pkt.data_total_length == len(data)
+
+
+lemma('data/acl/bytes', lemma_acl_bytes, prop=PROP, params=dict(h=BytesN(2), data=Bytes), requires=lambda data: len(data) <= 0xFFFF, inline=INLINE)
+
+
+def lemma_sco_fields(handle, status, data):
+    pkt = hci.HCI_SynchronousDataPacket(connection_handle=handle, packet_status=hci.HCI_SynchronousDataPacket.Status(status), data_total_length=len(data), data=data)
+    raw = bytes(pkt)
+    assert raw == sco_packet(handle, status, data)
+    back = HCI_Packet.from_bytes(raw)
+    assert type(back) is hci.HCI_SynchronousDataPacket
+    assert back.connection_handle == handle
+    assert back.packet_status == status
+    assert back.data_total_length == len(data)
+    assert back.data == data
+    assert bytes(back) == raw
+
+
+lemma('data/sco/fields', lemma_sco_fields, prop=PROP, params=dict(handle=H12, status=F2, data=Bytes), requires=lambda data: len(data) <= 255, inline=INLINE)
+
+
+def lemma_sco_bytes(h, data):
+    raw = bytes([3]) + h + bytes([len(data)]) + data
+    pkt = HCI_Packet.from_bytes(raw)
+    assert type(pkt) is hci.HCI_SynchronousDataPacket
+    assert bytes(pkt) == raw
+    assert 0 <= pkt.connection_handle <= 0xFFF
+    assert 0 <= pkt.packet_status <= 3
+    assert pkt.data == data
+
+
+lemma('data/sco/bytes', lemma_sco_bytes, prop=PROP, params=dict(h=BytesN(2), data=Bytes),
+      requires=lambda h, data: [len(data) <= 255, h[1] < 64], inline=INLINE, note='well-formed: the two RFU bits of the handle word are zero')
+
+
+def lemma_iso_fields(handle, pb, dtl, ts, sdu, frag):
+    """sdu = (packet_sequence_number, iso_sdu_length, packet_status_flag) or None; present exactly for PB_Flag 0b00/0b10"""
+    if sdu is None:
+        pkt = hci.HCI_IsoDataPacket(connection_handle=handle, data_total_length=dtl, iso_sdu_fragment=frag, pb_flag=pb, time_stamp=ts)
+    else:
+        pkt = hci.HCI_IsoDataPacket(connection_handle=handle, data_total_length=dtl, iso_sdu_fragment=frag, pb_flag=pb, time_stamp=ts,
+                                    packet_sequence_number=sdu[0], iso_sdu_length=sdu[1], packet_status_flag=sdu[2])
+    raw = bytes(pkt)
+    want = iso_header(handle, pb, 0 if ts is None else 1, dtl)
+    if ts is not None:
+        want = want + le32_bytes(ts)
+    if sdu is not None:
+        want = want + iso_sdu_info(sdu[0], sdu[1], sdu[2])
+    assert raw == want + frag
+    back = HCI_Packet.from_bytes(raw)
+    assert type(back) is hci.HCI_IsoDataPacket
+    assert back.connection_handle == handle
+    assert back.pb_flag == pb
+    assert back.data_total_length == dtl
+    assert back.time_stamp == ts
+    assert back.ts_flag == (ts is not None)
+    if sdu is None:
+        assert back.packet_sequence_number is None
+        assert back.iso_sdu_length is None
+        assert back.packet_status_flag is None
+    else:
+        assert back.packet_sequence_number == sdu[0]
+        assert back.iso_sdu_length == sdu[1]
+        assert back.packet_status_flag == sdu[2]
+    assert back.iso_sdu_fragment == frag
+    assert bytes(back) == raw
+
+
+lemma('data/iso/fields', lemma_iso_fields, prop=PROP,
+      params=dict(handle=H12, pb=F2, dtl=U16, ts=Opt(U32), sdu=Opt(TupleOf(U16, H12, F2)), frag=Bytes),
+      requires=lambda pb, sdu: (sdu is None) == (pb == 1 or pb == 3), inline=INLINE,
+      note='SDU information present exactly for PB_Flag 0b00/0b10 (Core 5.4.5); ISO_SDU_Length is a 12-bit field, Packet_Status_Flag a 2-bit field')
+
+
+def lemma_iso_bytes(h, dtl, ts, sdu, frag):
+    """h: the handle word; ts / sdu: optional Time_Stamp / SDU-information words as bytes"""
+    raw = bytes([5]) + h + dtl + (b'' if ts is None else ts) + (b'' if sdu is None else sdu) + frag
+    pkt = HCI_Packet.from_bytes(raw)
+    assert type(pkt) is hci.HCI_IsoDataPacket
+    assert bytes(pkt) == raw
+
+
+lemma('data/iso/bytes', lemma_iso_bytes, prop=PROP,
+      params=dict(h=BytesN(2), dtl=BytesN(2), ts=Opt(BytesN(4)), sdu=Opt(BytesN(4)), frag=Bytes),
+      requires=lambda h, ts, sdu: [
+          h[1] < 128,  # RFU bit 15 zero
+          (ts is not None) == ((h[1] // 64) % 2 == 1),  # Time_Stamp present iff TS_Flag
+          (sdu is not None) == ((h[1] // 16) % 2 == 0),  # SDU information present iff PB_Flag is 0b00 or 0b10
+          sdu is None or (sdu[3] // 16) % 4 == 0,  # RFU bits 12-13 of the SDU-length word zero
+      ], inline=INLINE,
+      note='well-formed per Core Vol 4 Part E 5.4.5: RFU bits zero, optional words present exactly as the flags say')
